@@ -31,36 +31,54 @@ RULE = ('1-4 routes (target pattern: literals over an alphabet with %, space, re
         'environ it was made under; non-trivial there = >= 2 successful generations under different SCRIPT_NAMEs.  Every case '
         'is its own history: caches cleared and a fresh application (freshly compiled routes) per case; histories repeat '
         'calls, leave out values an earlier call supplied (KeyError due), use equal-but-differently-printing extra elements, '
-        'quote one text under different safe sets (echo), and every match dictionary handed out is consumed by its receiver')
+        'quote one text under different safe sets (echo), and every match dictionary handed out is consumed by its receiver'
+        '.  The alphabet holds text that a Unicode normalisation, a case mapping or a case folding would change (combining '
+        'marks, ANGSTROM / OHM SIGN, Hangul jamo, ligature fi, full-width solidus, dotted I, sharp s, sigmas).  A fourth stream '
+        '(6 %): target patterns with a placeholder whose regex is outside the sublanguage (capturing / non-capturing groups, '
+        'alternation, lazy quantifiers, several groups) FOLLOWED by another placeholder or a remainder, short texts, judged by '
+        'the open specification (re.fullmatch on every substring of the path shipped as an oracle table)')
 ASSUMPTIONS = [
-    'patterns are in C01\'s modelled sublanguage ({name:regex} = one character class with a quantifier); no pregenerator, no '
-    'static routes, no route predicates; route names are unique',
+    'patterns are in C01\'s modelled sublanguage ({name:regex} = one character class with a quantifier) for everything the '
+    'model answers; for placeholders outside it (groups, alternation, lazy quantifiers; no named inner groups, '
+    'back-references or look-around) only the open specification speaks, with re.fullmatch of each regex on every substring '
+    'of the path as an oracle input; no pregenerator, no static routes, no route predicates; route names are unique',
     'values other than str/bytes are ints (str() computed in Coq) or bool/integral float/list/tuple (str() shipped with the case)',
     'SCRIPT_NAME is valid UTF-8; a WSGI server mounts the application at SCRIPT_NAME and passes the rest of the '
     'percent-decoded path as PATH_INFO (PEP 3333)',
     'Unicode classification of non-ASCII characters by \\w and \\d is an oracle computed with re itself per case',
     'urllib.parse.quote / unquote_to_bytes / urlsplit, the UTF-8 codec and webob host_url / path_info are modelled '
     '(Lib/Percent, Lib/Utf8, Model/C17, Model/C01) and validated by the run, not verified',
+    'the keys of the keyword dictionary handed to Route.generate are distinct (a dict): newdict[k] = v appends',
 ]
 TRUSTED = ['hand-written models coq/Model/C01.v (parser + matcher + dispatch) and coq/Model/C17.v (generate, route_url), reused '
-           'unchanged, and the composition coq/Model/C06.v (pattern translation, server decoding); shape pins + regenerated '
-           'literals of C01, C17 and C06',
-           'CPython re (sublanguage), urllib.parse, UTF-8 codec, webob Request (modelled, validated by correspondence)',
+           'unchanged, and the composition coq/Model/C06.v (pattern translation, server decoding, open specification); shape '
+           'pins + regenerated literals of C01, C17 and C06',
+           'harness/c06/translate.py and its primitive table (the generator closure and q of _compile_route are regenerated into '
+           'coq/Gen/Code_C06.v on every run; generated = model is proved, what a primitive means is a modelling statement)',
+           'CPython re (sublanguage; as an oracle for placeholders outside it), urllib.parse, UTF-8 codec, webob Request '
+           '(modelled, validated by correspondence)',
            'Python judge for the character set of the produced path']
 TECHNIQUE = ('Coq proof composing C17\'s generator with C01\'s matcher (Percent.unquote_quote, Utf8.decode_encode, '
-             'C01.match_spec/all_decs_char + uniqueness of the decomposition under separability) + regenerated facts + '
-             'extracted-model differential correspondence through a real Router')
+             'C01.match_spec/all_decs_char + uniqueness of the decomposition under separability, or by enumeration: "no other '
+             'way of cutting the path") + regenerated facts + control flow of the generator closure translated from the source '
+             'on every run (generated = model theorems) + extracted-model differential correspondence through a real Router')
 LEVEL_TEXT = ('Machine-checked for every pattern of C01\'s sublanguage and values of any size: a successfully generated path is '
               'ASCII within unreserved + PATH_SAFE + %, percent-decodes to the UTF-8 of the pattern text with the values in place '
               '(literals kept, in order), and -- when every {name} value lies in its placeholder\'s language and the pattern is '
-              'separable for these values -- matching that decoded path with the same compiled pattern returns exactly the '
-              'stringified values, the remainder as the supplied segments (normalised by split_path_info otherwise); a '
+              'separable for these values, or more generally when the supplied values are the only way of cutting the path along '
+              'the pattern -- matching that decoded path with the same compiled pattern returns exactly the '
+              'stringified values, the remainder as the supplied segments (normalised by split_path_info otherwise; followed by '
+              'the extra elements when there are any); a '
               'placeholder without a value gives KeyError; route_url = scheme://authority + route_path; generation is independent '
               'of earlier generations in the process (_segment_cache) and, on one request object, of earlier generations and '
-              'earlier SCRIPT_NAMEs (each call = the function of the current environ).')
-LEVEL_NOTE = ('Trusted: Coq kernel; the hand-written models (shape-pinned, validated by correspondence); the parser of patterns '
-              'is C01\'s (validated, no relational theorem); urllib/webob/re modelled; Python judge. Extra elements: only their '
-              'place in the decoded path is specified here (their decoding is C17\'s).')
+              'earlier SCRIPT_NAMEs (each call = the function of the current environ).  The generator closure run by the '
+              'extracted model is the one translated from the source under test and proved equal to the reference model.  For '
+              'placeholders outside the sublanguage the executable open specification (path + dictionary under "only way") is '
+              'what is checked against the code; its meaning and its soundness for modelled patterns are theorems.')
+LEVEL_NOTE = ('Trusted: Coq kernel; the hand-written models (shape-pinned or translated, validated by correspondence); the parser '
+              'of patterns is C01\'s (validated, no relational theorem); urllib/webob/re modelled; Python judge; the translator\'s '
+              'primitive table. Extra elements: only their place in the decoded path (and in the remainder) is specified here '
+              '(their decoding is C17\'s). For placeholders outside the sublanguage the matcher is not modelled: re is an oracle.')
 
 facts = c06facts.facts
 generate = G.generate
@@ -143,6 +161,11 @@ def valid(case):
             if not (isinstance(n, str) and n and isinstance(p, str) and P17._no_surrogate(p)) or P17._external(p) \
                     or P17.parse_pattern(p) is None:
                 return False
+            for r in hole_regs(p):
+                if r is not None and _OPAQUE.search(r):
+                    c = re.compile(r)           # re.error -> not a valid case
+                    if c.groupindex or re.search(r'\\[1-9]|\(\?[=!<]', r):
+                        return False             # named inner groups, back-references, look-around: not spoken about
         e = case['env']
         if not (all(isinstance(e[f], str) for f in ('scheme', 'server_name', 'server_port', 'script_name'))
                 and e['scheme'] in ('http', 'https') and e['server_name'] and e['server_port'].isdigit()
@@ -155,7 +178,10 @@ def valid(case):
             return False
         if not P17._query_ok(ov['query']) or not (ov['anchor'] is None or P17._pval_ok(ov['anchor'])):
             return False
-        return isinstance(case['target'], str) and P17._kw_ok(case['kw']) and all(P17._pval_ok(x) for x in case['elements']) \
+        # a one-shot iterator only where it is iterated: as the value of the target's remainder
+        tpp = P17.parse_pattern(dict((n, p) for n, p in rs).get(case['target']) or '/')
+        star = (tpp or {}).get('star') or None
+        return isinstance(case['target'], str) and P17._kw_ok(case['kw'], star) and all(P17._pval_ok(x) for x in case['elements']) \
             and len(case['elements']) <= 4
     except Exception:
         return False
@@ -214,7 +240,8 @@ def _texts(case):
         else:
             for x in v[1]:
                 pv(x)
-            out.append(str(P17._py_seq(v[2], [P17._py_pval(x) for x in v[1]])))
+            if v[2] in ('list', 'tuple'):
+                out.append(str(P17._py_seq(v[2], [P17._py_pval(x) for x in v[1]])))
     for x in case['elements']:
         pv(x)
     return out
@@ -250,14 +277,83 @@ def scripts_at(case):
     return out
 
 
+# ---- placeholders outside the modelled sublanguage: the oracle table for the open specification
+_OPAQUE = re.compile(r'[(|]|[+*?}]\?')        # a group, an alternation, a lazy quantifier
+OPEN_MAX_PATH = 40
+
+
+def hole_regs(pattern):
+    """the regex texts of the {name:regex} placeholders as _compile_route reads them, in order (None: bare {name})"""
+    rx = P17._regexes()
+    route = pattern
+    if rx['old'].search(route) and not rx['route'].search(route):
+        return []
+    if not route.startswith('/'):
+        route = '/' + route
+    if rx['star'].search(route):
+        route = route.rsplit('*', 1)[0]
+    pat = rx['route'].split(route)
+    out = []
+    for i in range(1, len(pat), 2):
+        name = pat[i][1:-1]
+        out.append(name.split(':', 1)[1] if ':' in name else None)
+    return out
+
+
+def _scalar_text(x):
+    return x.decode('utf-8') if isinstance(x, bytes) else x if type(x) is str else str(x)
+
+
+def rendered_path(case):
+    """the harness's own rendering of the target pattern with the values in place (only to know which substrings the
+    oracle table has to cover: a wrong rendering leaves the table without the needed entries and the spec silent)"""
+    tp = _target_pattern(case)
+    pp = P17.parse_pattern(tp)
+    kw = {k: v for k, v in case['kw']}
+    out = pp['prefix']
+    for name, lit in pp['holes']:
+        v = kw[name]
+        out += _scalar_text(P17._py_kwval(v)) + lit
+    if pp['star']:
+        v = kw[pp['star']]
+        py = P17._py_kwval(v)
+        out += '/'.join(_scalar_text(x) for x in py) if v[0] == 'q' else _scalar_text(py)
+    return out
+
+
+def open_table(case):
+    """[[regex, candidate, re.fullmatch?] ...] for every regex of the target pattern and every substring of the rendered
+    path, when some placeholder of the target is outside the modelled sublanguage; [] otherwise"""
+    try:
+        tp = _target_pattern(case)
+        regs = [r for r in hole_regs(tp or '') if r is not None]
+        if not any(_OPAQUE.search(r) for r in regs):
+            return []
+        path = rendered_path(case)
+        if len(path) > OPEN_MAX_PATH:
+            return []
+        subs = sorted({path[i:j] for i in range(len(path) + 1) for j in range(i, len(path) + 1)})
+        out = []
+        for r in sorted(set(regs)):
+            c = re.compile(r)
+            if c.groupindex:
+                return []            # named inner groups add keys of their own: outside what the property speaks about
+            for t in subs:
+                out.append([r, t, 1 if c.fullmatch(t) else 0])
+        return out
+    except Exception:
+        return []
+
+
 def to_wire(case):
     if case.get('kind') == 'req':
         return [2, _oracle(case), [[n, p] for n, p in case['routes']], case['target'], P17._w_env(case['env']),
                 case['path_info'], [_w_step(st) for st in case['steps']]]
     if case.get('kind') == 'hist':
         return [1, _oracle(case), list(case['route']), [[[k, _w_kwval6(v)] for k, v in kw] for kw in case['calls']]]
+    tbl = open_table(case)
     return [_oracle(case), [[n, p] for n, p in case['routes']], case['target'], P17._w_env(case['env']),
-            [P17._w_pval(x) for x in case['elements']], P17._w_ov(case['ov']), P17._w_kw(case['kw'])]
+            [P17._w_pval(x) for x in case['elements']], P17._w_ov(case['ov']), P17._w_kw(case['kw'])] + ([tbl] if tbl else [])
 
 
 def _canon_dict(d):
@@ -780,7 +876,7 @@ def kinds(case, obs):
         if not re.search(r'\{', tp) and re.search(r':[_a-zA-Z]', tp):
             k.append('old-style')
     for _n, v in case['kw']:
-        k.append('kw-' + (v[1][0] if v[0] == 'v' else 'seq'))
+        k.append('kw-' + (v[1][0] if v[0] == 'v' else 'seq-one-shot' if v[2] in ('iter', 'gen') else 'seq'))
     k.append('elements-%d' % min(3, len(case['elements'])))
     sc = case['env']['script_name']
     k.append('script-' + ('empty' if not sc else 'quoted' if P17._needs_quote(sc) else 'plain'))
@@ -789,6 +885,10 @@ def kinds(case, obs):
     k.append('spec-nothing' if sp is None else 'spec-keyerror' if sp[0] == 'keyerror' else
              'spec-route-with-dict' if sp[2] else 'spec-route-path-only')
     m = case.get('meta') or {}
+    if any(r is not None and _OPAQUE.search(r) for r in hole_regs(tp)):
+        k.append('target-regex-outside-sublanguage')
+        if sp is not None and sp[0] == 'route':
+            k.append('open-spec-with-dict' if sp[2] else 'open-spec-path-only')
     k.append('gen-separable' if m.get('separable_gen') else 'gen-any')
     if m.get('dropped'):
         k.append('gen-dropped-key')
